@@ -25,20 +25,35 @@ try:
     res['existing_tests_pass'] = rc == 0; res['existing_tests'] = sorted(tp)
     if rc: print(out[-3000:])
     run = open(f'{d}/demo/RUN.md').read()
-    m = re.search(r'cp\s+\S*demo/(\S+)\s+(?:\$W/)?(\S+)', run)
-    rx = re.search(r'-run\s+[\'"]?([A-Za-z0-9_|^$]+)', run)
-    if m and rx:
-        pkg = m.group(2).rstrip('/')
-        if pkg.endswith('.go'): pkg = os.path.dirname(pkg)
-        for f in os.listdir(f'{d}/demo'):
-            if f.endswith('.go'): shutil.copy(f'{d}/demo/{f}', f'{W}/{pkg}/')
-        cmd = f"go1.26 test -vet=off -count=1 -run '{rx.group(1)}' ./{pkg}/"
-        rc1, o1 = sh(cmd, cwd=W); res['demo_fails_with_change'] = rc1 != 0
+    demo_files = [f for f in os.listdir(f'{d}/demo') if f.endswith('.go') or f.endswith('.mx') or f.endswith('.sh')]
+    placed = {}
+    for m in re.finditer(r'cp\s+(\S+)\s+(\S+)', run):
+        srcs, dest = m.group(1), m.group(2)
+        base = os.path.basename(srcs)
+        dest = re.sub(r'^(\$W|\$WT|\$TREE|\$\{W\}|/tmp/seed-[A-Z0-9-]+)/', '', dest).rstrip('/')
+        if dest.endswith('.go'): dest = os.path.dirname(dest)
+        for f in demo_files:
+            if f == base or (('*' in base) and re.fullmatch(base.replace('.', r'\.').replace('*', '.*'), f)):
+                placed[f] = dest
+    cmds = []
+    for m in re.finditer(r'((?:CGO_ENABLED=1\s+)?go1\.26 test[^\n|)]*)', run):
+        cmd = m.group(1).strip().rstrip('`').strip()
+        cmd = re.sub(r'-count=\d+', '-count=1', cmd)
+        if cmd not in cmds and '-run' in cmd: cmds.append(cmd)
+    if placed and cmds:
+        for f, dest in placed.items():
+            if os.path.isdir(f'{W}/{dest}'): shutil.copy(f'{d}/demo/{f}', f'{W}/{dest}/')
+        def runall():
+            rcs, outs = [], []
+            for cmd in cmds:
+                rc, o = sh(cmd, cwd=W); rcs.append(rc); outs.append(o[-800:])
+            return rcs, outs
+        rc1, o1 = runall(); res['demo_fails_with_change'] = any(r != 0 for r in rc1)
         sh('git checkout -- ' + ' '.join(files), cwd=W)
-        rc2, o2 = sh(cmd, cwd=W); res['demo_passes_without_change'] = rc2 == 0
-        res['demo_cmd'] = cmd
-        if rc1 == 0: print('DEMO WITH CHANGE UNEXPECTEDLY PASSED\n', o1[-1500:])
-        if rc2 != 0: print('DEMO WITHOUT CHANGE FAILED\n', o2[-1500:])
+        rc2, o2 = runall(); res['demo_passes_without_change'] = all(r == 0 for r in rc2)
+        res['demo_cmds'] = cmds; res['demo_files'] = placed
+        if not res['demo_fails_with_change']: print('DEMO WITH CHANGE UNEXPECTEDLY PASSED\n', o1)
+        if not res['demo_passes_without_change']: print('DEMO WITHOUT CHANGE FAILED\n', [o for r, o in zip(rc2, o2) if r])
     else:
         res['demo'] = 'could not parse RUN.md; verify manually'
 finally:
